@@ -159,8 +159,9 @@ def run(ctx):
                 continue
             reported.add(key)
         body = {"history": hist, "harness_cmd": cmd, "mismatch": line, "how_to_rerun": cmd + " | " + driver}
-        if nviol < 5:
+        if key is not None or nviol < 5:
             # a key listed in known_findings.json prints KNOWN-FINDING; anything else is a VIOLATION
+            # (at most 5 unkeyed ones are written out; the known finding is reported regardless)
             if ctx.violation("implementation differs from the reference container: " + line, body, key=key):
                 nviol += 1
     if model_mm:
